@@ -348,10 +348,10 @@ def validate(units, obs, module='VTLOperators_Trace', cfg='VTLOperators_Trace.cf
         trace.append({'id': u['id'], 'env': u['env'], 'term': u['term'], 'obs': _strip_obs(o), 'cc': bool(u.get('cc', True))})
         if 'rules' in u:
             trace[-1]['rules'] = u['rules']
-    return _validate_batch(trace, module, cfg, workers)
+    return _validate_batch(trace, module, cfg, workers, {u['id']: o for u, o in zip(units, obs)})
 
 
-def _validate_batch(trace, module, cfg, workers):
+def _validate_batch(trace, module, cfg, workers, full=None):
     if not trace:
         return [], 0, 0
     path = os.path.join(engine.sub_dir('traces'), 'ops-%d-%d.json' % (os.getpid(), id(trace) % 10**6))
@@ -362,8 +362,8 @@ def _validate_batch(trace, module, cfg, workers):
     if not r.ok:
         if 'Overflow when computing' in r.output and len(trace) > 1:
             h = len(trace) // 2
-            a, s1, t1 = _validate_batch(trace[:h], module, cfg, workers)
-            b, s2, t2 = _validate_batch(trace[h:], module, cfg, workers)
+            a, s1, t1 = _validate_batch(trace[:h], module, cfg, workers, full)
+            b, s2, t2 = _validate_batch(trace[h:], module, cfg, workers, full)
             return a + b, s1 + s2, t1 + t2
         if 'Overflow when computing' in r.output:
             return [{'id': trace[0]['id'], 'ok': None, 'why': 'overflow in 32-bit TLC arithmetic (unit skipped)'}], 0, 0
@@ -383,6 +383,7 @@ def _validate_batch(trace, module, cfg, workers):
         elif isinstance(v.get('exp'), dict) and v['exp'].get('err') == 'undetermined':
             out.append({'id': t['id'], 'ok': None, 'why': 'undetermined by VTL (not judged)'})
         else:
-            ok, why = values.result_close(v['exp'], t['obs'], t['cc'])
+            # the observation as recorded (with the engine's message), not the stripped form TLC was given
+            ok, why = values.result_close(v['exp'], (full or {}).get(t['id'], t['obs']), t['cc'])
             out.append({'id': t['id'], 'ok': ok, 'why': why, 'exp': v['exp'], 'by': 'tlc-expected+tolerance'})
     return out, r.states, r.generated
